@@ -123,3 +123,13 @@ def blob(n):
 
 def raise_value_error(*a):
     raise ValueError(*a)
+
+
+def linger_then_raise(x):
+    """for x == 0: leaves a non-daemon helper thread behind (the process cannot exit on its own) and raises; else x*x"""
+    import threading
+    import time
+    if x == 0:
+        threading.Thread(target=time.sleep, args=(60,)).start()
+        raise ValueError('poison')
+    return x * x
